@@ -180,6 +180,17 @@ def run_c11(tier, seed):
                             % (sub, "\n" * (3 if sub == "pa" else 0), sub, fault if bad else ""))
             inputs.append(("module-same-name-%s" % ("first" if which == 0 else "second"),
                            'version: "3"\nmod s%dw%d.pa.types;\nmod s%dw%d.pb.types;\nstruct T { a @0: u8, }\n' % (k, which, k, which)))
+    # type expressions nested far beyond any recursion limit, closed and unclosed
+    for n in (100, 400, 1500, 6000):
+        inputs.append(("deep-nesting", 'version: "3"\nstruct A { a @0: ' + "[" * n + "u8" + ", 2]" * n + ", }\n"))
+        inputs.append(("deep-nesting", 'version: "3"\nstruct A { a @0: ' + "Optional[" * n + "u8" + "]" * (n // 2)))
+    # a module with the SAME file name as the schema that imports it, and an error in the schema after the import
+    for k, fault in enumerate(FAULTS):
+        d = os.path.join(chk.workdir, "r%d" % k, "sub")
+        os.makedirs(d, exist_ok=True)
+        with open(os.path.join(d, "main.fcp"), "w") as f:
+            f.write('version: "3"\n\nstruct Inner%d { v @0: u8, }\n' % k)
+        inputs.append(("module-named-like-root", 'version: "3"\nmod r%d.sub.main;\n\n\n\n\n%s\n' % (k, fault)))
     os.chdir(chk.workdir)       # `mod` paths of in-memory sources resolve against the cwd
     try:
         from fcp.error import Logger
